@@ -22,8 +22,10 @@ THEOREMS = [
     ("Anytree.Props.C16.post_detach_sees", "full"),
     ("Anytree.Props.C16.post_attach_sees", "full"),
     ("Anytree.Props.C16.post_fault_keeps_step", "full"),
+    ("Anytree.Props.C16.log_setChildren", "full"),
+    ("Anytree.Props.C16.delChildren_log_kinds", "full"),
 ]
-NOT_COVERED = ['log_setChildren (hook log of a children assignment = closed form) is not yet proved in Lean; compared against the closed-form spec by the correspondence run']
+NOT_COVERED = []
 PREDICATE_SPEC = True
 RULE = ("every ordered labelled forest over k nodes (quick 3, thorough 4) x every call, full hook logs with snapshots; "
         "every single post-hook and pre-hook fault position of parent assignments; random histories. Distinct = distinct "
